@@ -301,3 +301,65 @@ def liveness(ctx):
         r = vf.mc_run(ctx, name, "QueueLive", consts, plain, invariants=["HorizonNotBinding"],
                       properties=["EventuallyOffered", "EventuallySettled"], timeout=600, workers=4)
         vf.mc_expect_ok(ctx, r, "QueueLive/" + name)
+
+
+def lin_run(ctx, files, name="lin", timeout=600):
+    """Linearizability check of concurrent call/return traces (QueueLinTrace).  A trace is accepted as soon as TLC
+    finds one behaviour that consumes it (reported as the violation of the invariant NotFinished); it is rejected
+    when the complete search ends without one.  Returns list of {file, accepted, matched, total, states, error}."""
+    import concurrent.futures as cf
+    import re
+    d = vf.spec_dir(ctx, name)
+
+    def one(i_tf):
+        i, tf = i_tf
+        total = sum(1 for _ in open(tf))
+        cfgname = "lin_%d.cfg" % i
+        open(os.path.join(d, cfgname), "w").write(
+            "SPECIFICATION Spec\nCONSTANT TraceFile = %s\nCONSTRAINT HighWater\nINVARIANT NotFinished\nPOSTCONDITION TraceAccepted\nCHECK_DEADLOCK FALSE\n" % json.dumps(tf))
+        rc, out, secs = vf.run_java_tlc(d, "QueueLinTrace.tla", cfgname, workers=1, timeout=timeout, heap="3g",
+                                        props=["tlc2.tool.queue.IStateQueue=StateDeque"])
+        r = vf.parse_tlc(out)
+        accepted = "Invariant NotFinished is violated" in out
+        m = re.search(r'"REJECTED", "matched", (\d+), "of", (\d+)', out)
+        matched = total if accepted else (int(m.group(1)) if m else 0)
+        err = None
+        if not accepted and not m:
+            err = r["error"] or "no verdict from TLC"
+        return {"file": tf, "accepted": accepted, "matched": matched, "total": total, "states": r["generated"], "error": err,
+                "out_tail": "\n".join(out.splitlines()[-20:])}
+
+    with cf.ThreadPoolExecutor(max_workers=min(len(files), vf.NCPU) or 1) as ex:
+        res = list(ex.map(one, list(enumerate(files))))
+    for r in res:
+        ctx.cov["states"] += r["states"]
+        ctx.cov["transitions"] += r["states"]
+        ctx.cov["tv_events"] += r["matched"]
+        if r["accepted"]:
+            ctx.cov["traces_validated_against_impl"] += 1
+    return res
+
+
+def lin_triage(ctx, res, layer):
+    for r in res:
+        if r["error"]:
+            raise vf.Infra("linearization check errored on %s: %s\n%s" % (r["file"], r["error"], r["out_tail"]))
+    for r in res:
+        if r["accepted"]:
+            continue
+        # confirm by a second, independent validation of the same recorded history
+        again = lin_run(ctx, [r["file"]], name="lin-confirm")[0]
+        if again["error"] or again["accepted"]:
+            raise vf.Infra("rejection of %s was not confirmed" % r["file"])
+        events = vf.load_trace(r["file"])
+        head = events[0]
+        nxt = events[r["matched"]] if r["matched"] < len(events) else {}
+        backend = head.get("cfg", {}).get("backend", "?")
+        sig = "%s/%s/lin/%s" % (layer, backend, nxt.get("ev", "?"))
+        keep = os.path.join(vf.VERIF, "replays", "%s-%s.ndjson" % (ctx.prop, os.path.basename(r["file"])))
+        os.makedirs(os.path.dirname(keep), exist_ok=True)
+        import shutil
+        shutil.copyfile(r["file"], keep)
+        text = "concurrent history %s has no linearization: longest explained prefix %d of %d lines; next line %s" % (
+            head.get("tr"), r["matched"], r["total"], json.dumps(nxt)[:400])
+        vf.report(ctx, sig, text, {"layer": layer, "backend": backend, "trace_file": keep, "matched": r["matched"]})
